@@ -19,7 +19,7 @@ BUILTINS = {'array', 'nonzero', 'slice', 'transpose', 'split', 'full_like', 'sol
             'empty_like', 'zeros_like', 'sum', 'tuple', 'list', 'isinstance', 'print', 'zip', 'floor', 'sqrt',
             'exp', 'tanh', 'cosh', 'cos', 'sin', 'RuntimeError', 'ValueError', 'AssertionError', 'NotImplementedError',
             'str', 'reversed', 'sorted', 'all', 'any', 'prod', 'pi', 'mod', 'fabs', 'log', 'dict', 'set'}
-SPEC_BUILTINS = {'gfield', 'comm_size', 'comm_rank', 'peer_send', 'flatidx', 'prodof', 'coll_trace', 'interp_val', 'holds', 'valid', 'field_of', 'layout_of', 'same_content', 'distinct_bufs', 'same_buf', 'bufview', 'name_id', 'split', 'uknots', 'forall', 'exists', 'sum_', 'implies', 'and_', 'iff', 'old', 'ite_', 'shape', 'let', 'select', 'real', 'fdiv', 'fmod', 'trunc'}
+SPEC_BUILTINS = {'view_fixed', 'view_of', 'caller', 'gfield', 'comm_size', 'comm_rank', 'peer_send', 'flatidx', 'prodof', 'coll_trace', 'interp_val', 'holds', 'valid', 'field_of', 'layout_of', 'same_content', 'distinct_bufs', 'same_buf', 'bufview', 'name_id', 'split', 'uknots', 'forall', 'exists', 'sum_', 'implies', 'and_', 'iff', 'old', 'ite_', 'shape', 'let', 'select', 'real', 'fdiv', 'fmod', 'trunc'}
 
 import vf.execu as _execu
 _execu.BUILTINS = BUILTINS
@@ -134,6 +134,23 @@ class Engine(Exec):
             return V.ObjArray(args[0])
         if name == 'nonzero' and args and isinstance(args[0], V.ObjArray) and all(isinstance(x, bool) for x in args[0]):
             return ([k for k, x in enumerate(args[0]) if x],)
+        if name == 'view_fixed':
+            # view_fixed(v, k): the index at which view v fixes axis k of the array it is a view of
+            v, k = args
+            if not isinstance(v, ArrView) or not is_cint(k) or v.spec[k][0] != 'i':
+                raise OutOfReach('view_fixed: not a view with a fixed index on that axis')
+            return v.spec[k][1]
+        if name == 'view_of':
+            # view_of(v, a): v is a live view of array a whose free axes start at 0
+            v, a = args
+            if isinstance(a, ArrView):
+                a = a.base
+            return bool(isinstance(v, ArrView) and v.base is a) and all(kd == 'i' or (is_cint(x) and x == 0) for kd, x in v.spec)
+        if name == 'caller':
+            env = getattr(fr, 'caller_env', None)
+            if env is None or args[0] not in env:
+                raise OutOfReach('caller(%r): no such variable at the call site' % (args[0],))
+            return env[args[0]]
         if name == 'gfield':
             # the global field of a distributed array: an uninterpreted function of the global index (one per rank)
             G = V.uf('gfield%d' % len(args), *([INT] * len(args) + [REAL]))
@@ -234,6 +251,8 @@ class Engine(Exec):
         if name == 'enumerate':
             if isinstance(args[0], (list, tuple)):
                 return list(enumerate(args[0]))
+            if self.is_arr(args[0]) or isinstance(args[0], (V.SymRange, V.SymList)):
+                return V.EnumVal(args[0])
             raise OutOfReach('enumerate outside for')
         if name == 'zip':
             lists = []
@@ -553,7 +572,12 @@ class Engine(Exec):
         params = [p.arg for p in a.args]
         env = {}
         if len(args) > len(params):
-            raise OutOfReach('too many arguments')
+            if a.vararg is None:
+                raise OutOfReach('too many arguments')
+            env[a.vararg.arg] = tuple(args[len(params):])
+            args = args[:len(params)]
+        elif a.vararg is not None:
+            env[a.vararg.arg] = ()
         for p, v in zip(params, args):
             env[p] = v
         defaults = a.defaults
@@ -683,7 +707,9 @@ class Engine(Exec):
         env = dict(zip(params, args))
         env.update(kwargs)
         cfr = self.contract_frame(c, target, fr)
+        cfr.caller_env = st.env
         callee_st = st.fork()
+        cfr.caller_env = dict(callee_st.env)
         callee_st.env = env
         for n, ck in c.funparams.items():
             # function-valued argument must be registered as satisfying the abstract contract
@@ -1080,7 +1106,11 @@ class Engine(Exec):
         c = fr.contract
         if c is None:
             return None, key
-        return c.loops.get(key), key
+        lc = c.loops.get(key)
+        if lc is None and isinstance(node, ast.For):
+            # '*': default contract for every for-loop the contract does not name (wiring contracts: no loop-carried facts)
+            lc = c.loops.get('*')
+        return lc, key
 
     def iter_spec(self, node, st, fr):
         """for-loop iteration space: (lo, hi, bind(st,i), index_name)."""
@@ -1102,6 +1132,11 @@ class Engine(Exec):
             if not (isinstance(tgt, ast.Tuple) and len(tgt.elts) == 2 and isinstance(tgt.elts[0], ast.Name)):
                 raise OutOfReach('enumerate target')
             iname = tgt.elts[0].id
+            if isinstance(seq, V.SymRange):
+                def bindr(s, i, seq=seq):
+                    self.assign(tgt.elts[0], i, s, fr)
+                    self.assign(tgt.elts[1], binop('Add', seq.lo, i), s, fr)
+                return 0, binop('Sub', seq.hi, seq.lo), bindr, iname
             if isinstance(seq, V.SymList):
                 def bindl(s, i, seq=seq):
                     self.assign(tgt.elts[0], i, s, fr)
@@ -1131,6 +1166,18 @@ class Engine(Exec):
                         self.assign(te, simp(self.elem_fn(s, q)((i,))), s, fr)
                 return 0, seqs[0].shape[0], bindz, '_i'
         seq = self.ev(it, st, fr)
+        if isinstance(seq, V.EnumVal):
+            if not (isinstance(tgt, ast.Tuple) and len(tgt.elts) == 2 and isinstance(tgt.elts[0], ast.Name)):
+                raise OutOfReach('enumerate target')
+            q = seq.seq
+            iname = tgt.elts[0].id
+            if isinstance(q, V.SymRange):
+                return 0, binop('Sub', q.hi, q.lo), (lambda s, i: (self.assign(tgt.elts[0], i, s, fr),
+                                                                  self.assign(tgt.elts[1], binop('Add', q.lo, i), s, fr))), iname
+            if self.is_arr(q) and q.rank == 1:
+                return 0, q.shape[0], (lambda s, i: (self.assign(tgt.elts[0], i, s, fr),
+                                                     self.assign(tgt.elts[1], simp(self.elem_fn(s, q)((i,))), s, fr))), iname
+            raise OutOfReach('enumerate value over ' + type(q).__name__)
         if isinstance(seq, V.SymRange):
             if not isinstance(tgt, ast.Name):
                 raise OutOfReach('range target')
